@@ -45,7 +45,8 @@ Proof. exact encodes_when_fits. Qed.
 Print Assumptions C02_encodes_when_fits.
 
 (* What is emitted, exactly: the combinator layout of the header fields and of the extensions that
-   write anything, in spec order (a subsequence of the spec's extension types). *)
+   write anything, in spec order (a subsequence of the spec's extension types containing every
+   non-padding extension that writes anything, with its RFC body). *)
 Theorem C02_emits_layout : forall bbs padto h es p, wf_specb h es = true ->
   marshal_prepare h (map (to_aext padto) es) = Ok p -> fits h p = true ->
   exists present,
@@ -54,7 +55,8 @@ Theorem C02_emits_layout : forall bbs padto h es p, wf_specb h es = true ->
                           c_comp := h_comp h; c_has_exts := nonempty es; c_exts := present |})
     /\ subseq (map fst present) (map ext_id es)
     /\ ast_ok {| c_vers := h_vers h; c_random := h_random h; c_sid := h_sid h; c_suites := h_suites h;
-                 c_comp := h_comp h; c_has_exts := nonempty es; c_exts := present |}.
+                 c_comp := h_comp h; c_has_exts := nonempty es; c_exts := present |}
+    /\ (forall e, In e es -> is_padding e = false -> ext_absent e = false -> In (ext_id e, ext_body e) present).
 Proof. exact marshal_hello_ok. Qed.
 Print Assumptions C02_emits_layout.
 
